@@ -2087,7 +2087,14 @@ impl<F: VfsFile> BPlusTree<F> {
 
 		// Proceed with redistribution
 		let new_separator = left_node.redistribute_to_right(right_node);
+		// The separator changes: its overflow chain (if the old key had one) must
+		// not be inherited by the new key, and must be freed.
+		let old_overflow = parent.get_overflow_at(left_idx);
 		parent.keys[left_idx] = new_separator;
+		parent.set_overflow_at(left_idx, 0);
+		if old_overflow != 0 {
+			self.free_overflow_chain(old_overflow)?;
+		}
 
 		self.write_node_owned(NodeType::Leaf(left_node.clone()))?;
 		self.write_node_owned(NodeType::Leaf(right_node.clone()))?;
@@ -2151,7 +2158,14 @@ impl<F: VfsFile> BPlusTree<F> {
 
 		// Proceed with redistribution
 		let new_separator = left_node.take_from_right(right_node);
+		// The separator changes: its overflow chain (if the old key had one) must
+		// not be inherited by the new key, and must be freed.
+		let old_overflow = parent.get_overflow_at(left_idx);
 		parent.keys[left_idx] = new_separator;
+		parent.set_overflow_at(left_idx, 0);
+		if old_overflow != 0 {
+			self.free_overflow_chain(old_overflow)?;
+		}
 
 		self.write_node_owned(NodeType::Leaf(left_node.clone()))?;
 		self.write_node_owned(NodeType::Leaf(right_node.clone()))?;
